@@ -588,6 +588,58 @@ def corr_status(chk, cases):
                               {"kind": "status", "all": ks, "links": ls, "status": s})
 
 
+def corr_status_machine(chk, cases):
+    """The same statement at the call site: the state machine built from a document (`create_state_machine`) stores a
+    response of the source operation under the link key that the *documented* keys of that operation select — the keys
+    without links count too (a `default` link is not followed from a response that another documented key covers)."""
+    import schemathesis
+    drv = chk.driver()
+    # links in document order: that is the order in which create_state_machine visits them
+    cases = [(ks, [k for k in ks if k in ls], s) for ks, ls, s in cases if ls and len(set(ks)) == len(ks)]
+    outs = drv.batch([("status", {"all": ks, "links": ls, "status": s}) for ks, ls, s in cases])
+    machines = {}
+    for (ks, ls, s), m in zip(cases, outs):
+        key = json.dumps([ks, ls])
+        if key not in machines:
+            responses = {}
+            for k in ks:
+                r = {"description": "d"}
+                if k in ls:
+                    r["links"] = {f"L{ls.index(k)}": {"operationId": "getDst", "parameters": {"id": "$response.body#/id"}}}
+                responses[k] = r
+            raw = {"openapi": "3.0.2", "info": {"title": "t", "version": "1"}, "paths": {
+                "/src": {"post": {"operationId": "postSrc", "responses": responses}},
+                "/dst/{id}": {"get": {"operationId": "getDst", "parameters": [
+                    {"name": "id", "in": "path", "required": True, "schema": {"type": "integer"}}],
+                    "responses": {"200": {"description": "d"}}}}}}
+            try:
+                schema = schemathesis.openapi.from_dict(raw)
+                sm = schema.as_state_machine()
+                machines[key] = (schema["/src"]["POST"], sm._response_matchers.get("POST /src"))
+            except Exception as e:  # noqa: BLE001
+                machines[key] = (None, f"raises:{type(e).__name__}")
+        op, matcher = machines[key]
+        if op is None or not callable(matcher):
+            chk.feature("status-machine:" + (matcher if isinstance(matcher, str) else "no-matcher"))
+            continue
+        out = StepOutput(Response(status_code=s, headers={}, content=b"{}", request=_REQ, elapsed=0.1, verify=False), op.Case())
+        bundle = matcher(out)
+        got = None if bundle is None else bundle.split(" -> ", 1)[1]
+        chk.case("status:create_state_machine", key=[ks, ls, s], nontrivial=True,
+                 sample={"documented": ks, "with_links": ls, "status": s, "stored_under": got})
+        chk.feature("status-machine:" + ("none" if got is None else "default" if got == "default" else
+                                         "wildcard" if "X" in got.upper() else "exact"))
+        if not all(m["valid"]):
+            continue
+        if got != m["matcher"]:
+            chk.disagreement("status:create_state_machine", {"all": ks, "links": ls, "status": s}, m["matcher"], got)
+        if got is not None and not follows(got, ks, s):
+            chk.violation("C10:create_state_machine:response-stored-under-a-key-its-status-does-not-select",
+                          f"a {s} response of an operation documenting {ks} (links under {ls}) is stored under {got!r}: that link "
+                          f"is then followed from a response which another documented key covers",
+                          {"kind": "status-machine", "all": ks, "links": ls, "status": s})
+
+
 # ---- mechanism: OpenApiLink + into_step_input --------------------------------------------------------------------
 
 SOURCE_PARAMS = [("id", "path"), ("q", "query"), ("n", "query"), ("X-Token", "header")]
@@ -1145,6 +1197,7 @@ def run(chk):
     # status keys
     scases = [G.gen_status_case(rng, bad=rng.random() < 0.15) for _ in range(chk.budget(4000, 100000))]
     corr_status(chk, scases)
+    corr_status_machine(chk, [c for c in scases if all(isinstance(k, str) for k in c[0])][: chk.budget(500, 8000)])
 
     chk.exhaustive = False
     chk.proved += [
